@@ -86,7 +86,10 @@ def resolve_fault(f, ref):
         p = ref.get('peer_n') or 0
         if p <= 0:
             return None
-        return {'kind': 'F3', 'k': min(p, 1 + int(f.get('frac', 0.0) * p))}
+        out = {'kind': 'F3', 'k': min(p, 1 + int(f.get('frac', 0.0) * p))}
+        if f.get('exc'):
+            out['exc'] = f['exc']
+        return out
     if kind == 'F4':
         return {'kind': 'F4', 'budget': int(f.get('budget', 40))}
     if kind == 'F5':
@@ -149,7 +152,8 @@ def strip_refs(refs):
         if r is None:
             out.append(None)
         else:
-            out.append({k: {'outcome': v['outcome'], 'peer_n': v.get('peer_n', 0)} for k, v in r.items()})
+            out.append({k: {'outcome': v['outcome'], 'peer_n': v.get('peer_n', 0), 'peer_view': v.get('peer_view')}
+                        for k, v in r.items()})
     return out
 
 
